@@ -63,6 +63,18 @@ def cases(tier):
             if tier == "quick" and lid == "own33-VV" and order == ("f1", "f0"):
                 continue  # (2 minutes; the other operand order of this layout runs in the quick tier)
             out.append({"id": f"bs/{lid}/{','.join(order)}", "what": "bs", "world": w, "operands": list(order)})
+    # the SAME Operation object used twice (as examples/time_bin_encoding.py does): first on another pair (|1>,|0>) that ends
+    # at cut-off 2, then on (a, b) whose current dimensions are also 2 but which may hold two photons together
+    S4 = cm.subs(4, 0, [2, 2, 2, 2])
+    comp4 = [["e0", "e1", "e2", "e3"]]
+    tail = [{"kind": "own", "sub": "f2", "level": "L", "label": 1}, {"kind": "own", "sub": "f3", "level": "L", "label": 0}]
+    for lid, blocks, order in (
+            ("own-VV", [{"kind": "own", "sub": "f0", "level": "V"}, {"kind": "own", "sub": "f1", "level": "V"}], ("f0", "f1")),
+            ("ps[f1,f0]-V", [{"kind": "ps", "ce": 0, "members": ["f1", "f0"], "level": "V"}], ("f0", "f1")),
+            ("own-LL11", [{"kind": "own", "sub": "f0", "level": "L", "label": 1}, {"kind": "own", "sub": "f1", "level": "L", "label": 1}],
+             ("f1", "f0"))):
+        out.append({"id": f"bs-reused-operation/{lid}/{','.join(order)}", "what": "bs", "world": cm.world(S4, blocks + tail, comp4),
+                    "operands": list(order), "reuse": ["f2", "f3"]})
     for arm in ("f0", "f1"):
         for src in ("f0", "f1"):
             out.append({"id": f"mzi/photon-in-{src}/phase-on-{arm}", "what": "mzi", "arm": arm, "src": src})
@@ -137,6 +149,13 @@ def scenario(B, case):
     a, b = [W.sub(n) for n in case["operands"]]
     eta = B.real("eta")
     op = Operation(CompositeOperationType.NonPolarizingBeamSplitter, eta=eta)
+    if case.get("reuse"):
+        try:
+            W.ces[0].apply_operation(op, *[W.sub(n) for n in case["reuse"]])
+        except ValueError as e:
+            if "entirely composed of zeros" in str(e):
+                raise Cut("all-zero rejection (subject of C17)")
+            raise
     pre = W.snapshot()
     log = _ExpmLog(B)
     try:
